@@ -51,8 +51,44 @@ def generic_replay(payload, verbose=False):
     return ok
 
 
+def snake_cells(h, w):
+    """a long chain of diagonally touching cells that starts in the corner and then zigzags through the interior rows
+    (never adjacent, never segmenting): the pattern that needs the largest ranks in rank-based encodings"""
+    cells = [(0, 0)]
+    x = 1
+    while x <= w - 2 and h >= 4:
+        cells.append((1 if x % 2 == 1 else 2, x))
+        x += 1
+    return cells
+
+
+def spiral_path(h, w):
+    """an induced path (no chords) that winds through the grid: connected with a large radius"""
+    cells, y, x, dy, dx = [], 0, 0, 0, 1
+    seen = set()
+    while 0 <= y < h and 0 <= x < w:
+        cells.append((y, x))
+        seen.add((y, x))
+        ny, nx = y + dy, x + dx
+        # turn when the cell ahead, or a cell next to it other than the current one, is taken / outside
+        def blocked(cy, cx):
+            if not (0 <= cy < h and 0 <= cx < w) or (cy, cx) in seen:
+                return True
+            for (ay, ax) in ((cy - 1, cx), (cy + 1, cx), (cy, cx - 1), (cy, cx + 1)):
+                if (ay, ax) in seen and (ay, ax) != (y, x):
+                    return True
+            return False
+        if blocked(ny, nx):
+            dy, dx = dx, -dy
+            ny, nx = y + dy, x + dx
+            if blocked(ny, nx):
+                break
+        y, x = ny, nx
+    return cells
+
+
 def run_engine_a(prop, mod, files, tier, only, instances, key_of, label, functions, bounds, outside, explanation,
-                 tmo_quick=60, tmo_thorough=240, extra_assumptions=()):
+                 tmo_quick=60, tmo_thorough=240, extra_assumptions=(), spot=None):
     rep = common.Report(prop, tier, "translation_validation", files)
     rng = random.Random(common.seed())
     rep.extra["spec_selftest_cases"] = spec.self_test(rng, 40)
@@ -62,6 +98,11 @@ def run_engine_a(prop, mod, files, tier, only, instances, key_of, label, functio
     tmo = tmo_quick if tier == "quick" else tmo_thorough
     results = query.run_pool(mod, descs, tmo)
     query.absorb(rep, mod, results, key_of, label)
+    if spot is not None:
+        sd = spot(tier, rng)
+        if only:
+            sd = [d for d in sd if only in d["name"]]
+        query.run_spot(rep, mod, sd, key_of, label, tmo)
     rep.functions = functions
     rep.bounds = dict(bounds)
     rep.bounds["per-query timeout_s"] = tmo
